@@ -180,9 +180,11 @@ func (r *qLogReader) seekRecord(ctx context.Context, olderThan time.Time) (err e
 	}
 
 	err = r.seekTS(ctx, olderThan.UnixNano())
-	if err == nil {
+	if err == nil && r.seekExact {
 		// Read to the next record, because we only need the one that goes
-		// after it.
+		// after it.  Don't skip anything if the reader has been positioned at
+		// the start of the log, since the record with this timestamp isn't in
+		// the files, e.g. it is still in the memory buffer.
 		_, err = r.ReadNext()
 	}
 
